@@ -24,8 +24,7 @@ SCRIPTS = {
     "syriac": [(0x700, 0x74F)],
     "thai": [(0xE01, 0xE3A), (0xE3F, 0xE5B)],
     "lao": [(0xE81, 0xEDF)],
-    "hangul": [(0x1100, 0x1112), (0x1161, 0x1175), (0x11A8, 0x11C2), (0xAC00, 0xAC80), (0x302E, 0x302F), (0x1113, 0x1120),
-               (0x1176, 0x1180), (0x11C3, 0x11D0)],
+    "hangul": [(0x1100, 0x11FF), (0xA960, 0xA97C), (0xD7B0, 0xD7FB), (0xAC00, 0xAC80), (0xD788, 0xD7A3), (0x302E, 0x302F)],
     "devanagari": [(0x900, 0x97F)], "bengali": [(0x980, 0x9FF)], "gurmukhi": [(0xA00, 0xA7F)], "gujarati": [(0xA80, 0xAFF)],
     "oriya": [(0xB00, 0xB7F)], "tamil": [(0xB80, 0xBFF)], "telugu": [(0xC00, 0xC7F)], "kannada": [(0xC80, 0xCFF)],
     "malayalam": [(0xD00, 0xD7F)], "sinhala": [(0xD80, 0xDFF)],
@@ -113,11 +112,32 @@ def make_font(name, with_dotted_circle, with_space):
     return rec, cmap, inv
 
 
-def rand_string(r, alpha, marks, n):
+def class_key(cp):
+    nm = unicodedata.name(chr(cp), "")
+    return (unicodedata.category(chr(cp)), unicodedata.combining(chr(cp)), " ".join(nm.split()[:2]),
+            bool(unicodedata.decomposition(chr(cp))))
+
+
+def boundaries(alpha):
+    """characters at which some class (category, ccc, name family, decomposability, contiguity) changes: shaper
+    tables are ranges, and off-by-one slips live at their ends"""
+    out = []
+    for i, cp in enumerate(alpha):
+        prev = alpha[i - 1] if i else None
+        nxt = alpha[i + 1] if i + 1 < len(alpha) else None
+        if (prev is None or nxt is None or prev != cp - 1 or nxt != cp + 1
+                or class_key(prev) != class_key(cp) or class_key(nxt) != class_key(cp)):
+            out.append(cp)
+    return out
+
+
+def rand_string(r, alpha, marks, n, edge=None):
     s = []
     for _ in range(n):
         k = r.below(10)
-        if k < 3 and marks:
+        if edge and k < 4:
+            s.append(r.choice(edge))
+        elif k < 6 and marks:
             s.append(r.choice(marks))
         else:
             s.append(r.choice(alpha))
@@ -180,6 +200,7 @@ def conservation_search(ctx, shim, r, per_script, scripts=None):
     for si, name in enumerate(names):
         alpha = alphabet(name)
         marks = [c for c in alpha if unicodedata.category(chr(c)).startswith("M")]
+        edge = boundaries(alpha)
         for variant in range(2):
             has_dc = variant == 0
             rec, cmap, inv = make_font(name, has_dc, True)
@@ -188,7 +209,7 @@ def conservation_search(ctx, shim, r, per_script, scripts=None):
             cases = []
             for _ in range(per_script):
                 n = r.range(1, 8)
-                text = rand_string(r, alpha, marks, n)
+                text = rand_string(r, alpha, marks, n, edge)
                 mode = r.below(6)
                 flags = r.choice([0, 3, 0x10, 0x13])
                 removed_ok = False
@@ -229,7 +250,9 @@ def conservation_search(ctx, shim, r, per_script, scripts=None):
                 bad += 1
                 per[name] = per.get(name, 0) + 1
                 if bad <= 3 or per[name] == 1 and bad <= 12:
-                    cls = ("syllabic" if name in SYLLABIC else "other") + (":forced-direction" if forced else ":native-direction")
+                    joiner = any(is_di(cp) for cp in text)
+                    cls = ("syllabic" if name in SYLLABIC else "other") + (
+                        ":forced-direction" if forced else ":default-ignorable-in-text" if joiner else ":native-direction")
                     ctx.violation(f"{name}: {d['kind']} ({' '.join(f'{c:04X}' for c in text)})",
                                   {"stage": "search", "stream": "conservation", "script": name, "font_line": g[0],
                                    "class": cls, "kind": d["kind"],
